@@ -60,6 +60,8 @@ SCALARS = [
 ]
 
 XP2 = [
+    "matches('b', '[\\p{Ll}-[a-f]]')", "matches('b', '\\p{Ll}')", "matches('3', '[\\p{Nd}-[0-4]]')", "matches('3', '^\\d$')",
+    "replace('a1B2', '[\\w-[\\d]]', '.')", "matches('é', '[\\p{IsLatin-1Supplement}-[é]]')",
     'for $e in //a return name($e)', 'for $e in //* return count($e/*)', 'some $e in //a satisfies $e/@x',
     'every $e in //b satisfies $e/text()', 'if (//c) then //c[1] else //a[1]', '//a except //a[@x]',
     '//a intersect //*[@x]', 'reverse(//*)', 'subsequence(//*, 2, 3)', 'index-of(//*/name(), "a")',
@@ -81,6 +83,9 @@ XP3 = [
 
 # expressions whose value is (a sequence of) function items: the items are called later, after other evaluations
 FN_EXPRS = [
+    "for-each(('k'), map{'k': count(//*)})", "filter(('k', 'j'), map{'k': exists(//a), 'j': exists(//zz)})",
+    "apply(map{'k': string-join(//*/name(), ',')}, ['k'])", "for-each((1, 2), [count(//a), count(//*)])", "map{'k': count(//*)}('k')",
+    "for-each(('k'), map{'k': $i})", "(1, 2) ! [count(//a), $i](.)",
     'let $n := count(//a) return function($x) { $x + $n }', 'for $e in //a return function() { name($e) }',
     'function($x) { $x + $i }', 'let $k := $i return function() { $k }', '//* ! function() { count(*) }',
     'for $j in 1 to 3 return function($x) { $x * $j }', 'let $f := function($a, $b) { $a * 10 + $b } return ($f(1, ?), $f(2, ?))',
